@@ -5,7 +5,7 @@
    (b) atomicity: in every method of STFS and File, every action on state shared between callers happens while
        the call holds ioLock; the only tolerated exceptions are read-only look-ups before the lock is taken, and
        the methods that make them are exactly Create and SymlinkIfPossible; every method is one critical section
-       except ReadAt (two);
+       (ReadAt used to be two: Seek then Read; repaired);
    (c) generic (Proofs/Conc.v, any number of threads, any interleaving): ordered acquisition => no deadlock among
        lock waits; sections under one mutex => linearizable in release order, respecting real time; instantiated
        with the M1 model's step as the sequential specification;
@@ -21,7 +21,7 @@ From STFS Require Str Db Tape Index Ops Fs Diff.
 Open Scope string_scope.
 
 Definition allow_spawn : list string :=
-  ["fs.File.Read$go1"; "fs.File.seekWithoutLocking$go1"; "fs.File.Read$go1#1"; "fs.File.seekWithoutLocking$go1#1"].
+  ["fs.File.readWithoutLocking$go1"; "fs.File.seekWithoutLocking$go1"; "fs.File.readWithoutLocking$go1#1"; "fs.File.seekWithoutLocking$go1#1"].
 Definition C11_entries : list string := api_entries ++ spawned.
 
 (* ---------- (a) lock order ---------- *)
@@ -74,7 +74,7 @@ Theorem C11_prelock_reads_exact :
   filter (fun f => negb (check table prims_fixed astep 40 40 a_exit_strict 0%N f)) fs_methods = ["fs.STFS.Create"; "fs.STFS.SymlinkIfPossible"].
 Proof. vm_compute. reflexivity. Qed.
 Theorem C11_single_section_exact :
-  filter (fun f => negb (check table prims_fixed astep 40 40 a_exit_single 0%N f)) fs_methods = ["fs.File.ReadAt"].
+  filter (fun f => negb (check table prims_fixed astep 40 40 a_exit_single 0%N f)) fs_methods = [].
 Proof. vm_compute. reflexivity. Qed.
 
 Example C11_monitors_nonvacuous :
